@@ -381,9 +381,9 @@ let check_call (f : string) (a : sx list) : string option =
   | "gcounter", "inc_many", [c; x; st; d] -> cmp (=) show_dot (gc_inc_many (vc_sx c) (n_sx x) (n_sx st)) (dot_sx d)
   | "gcounter", "read", [c; r] -> cmp (=) show_n (gc_read (vc_sx c)) (n_sx r)
   | "gcounter", "bigread", [c; r] -> cmp (=) show_n (gc_read (vc_sx c)) (n_sx r)
-  | "pncounter", "bigread", [p; nn; r] ->
+  | "pncounter", "bigread", [st; r] ->
       (* read = P - N as a signed number: compared as P = N + read (or N = P + |read|) in N arithmetic *)
-      let ps = gc_read (vc_sx p) and ns = gc_read (vc_sx nn) in
+      let ps = gc_read (vc_sx (field "p" st)) and ns = gc_read (vc_sx (field "n" st)) in
       (match r with
        | A str when String.length str > 0 && str.[0] = '-' -> cmp (=) show_n ns (n_add ps (n_of_decimal (String.sub str 1 (String.length str - 1))))
        | A str -> cmp (=) show_n ps (n_add ns (n_of_decimal str))
